@@ -50,8 +50,8 @@ CHECKS = {
    note="Trusted: Kani/CBMC/CaDiCaL; for the rendering: the MIR dump and the models of Range::map, collect, to_string, join, the format-argument plumbing (template decoding) and write_fmt. N > 3 (rendering: N > 4) is outside."),
  "C13": dict(engine="mirsym", design="DESIGN.md#c13",
    technique="symbolic execution of the MIR of rlib_sieve with the limit enumerated and the query arguments symbolic (z3)",
-   text="For every limit N <= 64 (quick) / 300 (thorough) Sieve::new(N) is executed on its MIR; then for symbolic n (and d) the solver decides that the table entry is the least prime factor, primality flags agree, and factorize(n) yields increasing primes whose powers multiply to n, for every n <= N at once; the prime list is compared with trial division.",
-   note="Trusted: MIR dump; mirsym interpreter + Vec/Range models (every counterexample replayed natively); z3. Limits above 300 outside."),
+   text="For every limit N <= 64 (quick) / 300 (thorough) Sieve::new(N) is executed on its MIR; then for symbolic n (and d) the solver decides that the table entry is the least prime factor, primality flags agree, and factorize(n) yields increasing primes whose powers multiply to n, for every n <= N at once; the prime list is compared with trial division. Large limits N = 65600 (quick) and 1048640 (thorough): the same obligations with n symbolic in windows around every power of two and three, at the limit and at 10^6 (table reads at a symbolic index are built over the feasible index interval, found by solver queries).",
+   note="Trusted: MIR dump; mirsym interpreter + Vec/Range models (every counterexample replayed natively); z3. Limits other than the enumerated ones, and at the large limits values of n outside the windows, are outside."),
  "C14": dict(engine="kani+mirsym", design="DESIGN.md#c14",
    technique="bounded symbolic model checking of the compiled code (Kani/CBMC + CaDiCaL): symbolic bounds x raw output; existential claims as cover goals over all 2^64 seeds",
    text="Every integer type and range form: draw inside the range for every raw output, every value reachable (Skolem witness); f64 half-open range for all finite bounds; shuffle is a permutation for every seed, every arrangement of 3 and 4 elements reachable by some seed, small-range draws not periodic (cover goals that must be satisfiable).",
